@@ -221,10 +221,10 @@ func genRepo(r *lib.Rng) *repoSpec {
 					deps = append(deps, d)
 				}
 			}
-			envKeys := []string{"E_ONE", "E_TWO", "E_THREE", "E_FOUR"}
+			envKeys := []string{"E_ONE", "E_TWO", "E_THREE", "E_FOUR"}[:r.Range(2, 4)]
 			lib.Shuffle(r, envKeys)
 			envItems := []string{}
-			for _, k := range envKeys[:r.Range(2, 4)] {
+			for _, k := range envKeys {
 				envItems = append(envItems, fmt.Sprintf("%q: %q", k, strings.ToLower(k)))
 			}
 			outItems := []string{fmt.Sprintf("%q: [%q]", "main", name+".out"), fmt.Sprintf("%q: [%q]", "aux", name+".aux")}
@@ -308,7 +308,7 @@ func main() {
 			"distinct = distinct stored states; non-trivial = >= 2 maps with >= 2 entries and >= 2 dependencies")
 		prog := rh.LoadProg()
 
-		n := c.Scale(200, 4000)
+		n := c.Scale(120, 4000)
 		perms := c.Scale(3, 6)
 		for i := 0; i < n; i++ {
 			r := c.Rng.Fork()
